@@ -19,6 +19,7 @@ type wgen struct {
 	panics  []int
 	usable  []int // call ids that may be used (bounded step count)
 	maxStep int64
+	clock   bool // the library reads the clock: add clock-jump faults
 }
 
 func newWgen(c *proto.Corpus, e *proto.Expected, maxStep int64) *wgen {
@@ -250,6 +251,21 @@ func (g *wgen) run(seed uint64, proc, idx int) proto.RunRec {
 		}
 		if len(p.GCSteps) == 2 && p.GCSteps[0] > p.GCSteps[1] {
 			p.GCSteps[0], p.GCSteps[1] = p.GCSteps[1], p.GCSteps[0]
+		}
+	}
+	if g.clock && r.p(0.5) && est > 0 {
+		// clock jumps: forwards by a millisecond .. a month, sometimes backwards
+		deltas := []int64{1e6, 1e9, 61e9, 3601e9, 86401e9, 31 * 86400e9, -1e9, -3601e9}
+		nj := 1 + r.n(3)
+		for i := 0; i < nj; i++ {
+			p.ClockSteps = append(p.ClockSteps, 1+int64(r.next()%uint64(est)))
+			p.ClockDeltas = append(p.ClockDeltas, deltas[r.n(len(deltas))])
+		}
+		for i := 1; i < len(p.ClockSteps); i++ {
+			for j := i; j > 0 && p.ClockSteps[j] < p.ClockSteps[j-1]; j-- {
+				p.ClockSteps[j], p.ClockSteps[j-1] = p.ClockSteps[j-1], p.ClockSteps[j]
+				p.ClockDeltas[j], p.ClockDeltas[j-1] = p.ClockDeltas[j-1], p.ClockDeltas[j]
+			}
 		}
 	}
 	rec.Policy = p
